@@ -378,6 +378,8 @@ def _check(prop, tier, seed, tmp, t0):
         if eng == "l2" and prop == "C19" and i == 5:
             pop = "C19scale"  # state reports while more than 2^16 jobs are outstanding
         report = None
+        if eng == "l2" and prop in ("C08", "C04") and i == 5:
+            pop, report = "C08scale", prop  # thousands of failures (errors and panics) in one ContinueOnError directive
         if eng == "l2" and prop == "C01" and i == 5:
             pop, report = "C10scale", "C01"  # a job with more than 2^16 dependencies (End function of a large collection)
         if eng == "l1":
